@@ -27,12 +27,46 @@ class SchedProp(Prop):
                    'node indices are unique (C18)']
 
     def cases(self, rng, tier):
-        n = 260 if tier == 'quick' else 6000
+        n = 260 if tier == 'quick' else 5000
         for i in range(n):
             r = rng.random()
             yield SL.gen_case(rng, size='small' if r < 0.7 else 'large',
                               preplaced=rng.random() < self.preplaced_share,
                               disciplined=rng.random() < 0.93)
+        if tier == 'thorough':
+            yield from self.small_scope()
+
+    @staticmethod
+    def small_scope(maxlen=5):
+        '''every operation sequence of length <= maxlen over a 2-node x 2-core x 1-GPU pilot and three task
+        shapes (exhaustive small-scope enumeration)'''
+        import itertools
+        cfg = {'cpn': 2, 'gpn': 1, 'lfs': 100, 'mem': 0, 'scattered': True}
+        nodes = [{'cores': [0, 0], 'gpus': [0]}, {'cores': [0, 0], 'gpus': [0]}]
+        shapes = {'a1': dict(ranks=1, cpr=1, gpr=0, lfs=60, prio=0),
+                  'a2': dict(ranks=2, cpr=1, gpr=32, lfs=0, prio=0),
+                  'a3': dict(ranks=1, cpr=2, gpr=64, lfs=0, prio=1)}
+        alphabet = ['a1', 'a2', 'a3', 'rel', 'can', 'it']
+        for k in range(1, maxlen + 1):
+            for seq in itertools.product(alphabet, repeat=k):
+                if seq[0] in ('rel', 'can', 'it'):
+                    continue
+                ops, uid = [], 0
+                for x in seq:
+                    if x in shapes:
+                        uid += 1
+                        r = {'uid': uid, 'ranks': 1, 'cpr': 1, 'gpr': 0, 'lfs': 0, 'mem': 0, 'rpn': 0, 'prio': 0,
+                             'colo': None, 'excl': False, 'env': None, 'slots': None}
+                        r.update(shapes[x])
+                        ops.append(['arrive', [r]])
+                    elif x == 'rel':
+                        ops.append(['unsched', list(range(1, uid + 1))])
+                    elif x == 'can':
+                        ops.append(['cancel', [uid]])
+                    else:
+                        ops.append(['iter'])
+                ops += [['iter'], ['iter']]
+                yield {'kind': 'sched', 'cfg': cfg, 'nodes': nodes, 'ops': ops, 'disciplined': True}
 
     def impl_setup(self):
         self.rp = rp_import()
